@@ -349,6 +349,37 @@ def compat_histories(rng, n):
     return out
 
 
+def waiting_histories(rng, n):
+    """the WAITING-filtered listing (what Study.ask uses to find a queued trial) asked REPEATEDLY without a claim in between,
+    and around trials that go back to WAITING or are claimed: a backend that remembers where the last scan ended (the in-memory
+    cursor) must still list every WAITING trial every time"""
+    import random
+
+    r = random.Random(rng.getrandbits(48))
+    out = []
+    for i in range(n):
+        nt = r.randint(2, 5)
+        ops = [{"a": "create_study", "name": "A", "dirs": [0]}] + [{"a": "create_trial", "s": 1, "tm": {"has": 0}} for _ in range(nt)]
+        for t in r.sample(range(1, nt + 1), r.randint(1, nt)):
+            ops.append({"a": "set_state", "t": t, "state": "WAITING", "values": sd.NONE_V})
+        for _ in range(r.randint(6, 12)):
+            y = r.random()
+            if y < 0.5:
+                ops.append({"a": "get_all_trials", "s": 1, "states": ["WAITING"], "dc": r.randint(0, 1), "as_list": r.randint(0, 1)})
+            elif y < 0.7:
+                ops.append({"a": "set_state", "t": r.randint(1, nt), "state": r.choice(["RUNNING", "WAITING"]), "values": sd.NONE_V})
+            elif y < 0.8:
+                ops.append({"a": "set_state", "t": r.randint(1, nt), "state": "COMPLETE", "values": [r.choice(sd.FINITE)]})
+            elif y < 0.9:
+                ops.append({"a": "create_trial", "s": 1, "tm": {"has": 0}})
+                nt += 1
+            else:
+                ops.append({"a": "get_all_trials", "s": 1, "states": ["ALL"], "dc": 1, "as_list": 0})
+        ops.append({"a": "get_all_trials", "s": 1, "states": ["WAITING"], "dc": 1, "as_list": 0})
+        out.append({"hid": f"wq{i}", "ops": ops})
+    return out
+
+
 def delete_histories(rng, n):
     """'a deleted study and its trials are gone': trials are created, written and READ (so that every client-side cache holds
     them), the study is deleted, and then every way of reaching the study or one of its trials is tried, also after another
